@@ -245,6 +245,33 @@ void w_dtor(void)
   __CPROVER_assert(0, "REACH! dtor.end");
 }
 
+/* ================================================================== a rejected call, then an expectation's lifetime ends (C04 after C01/C05/C07) */
+void w_call_then_dtor(void)
+{
+  build_world();
+  int x = nondet_int(); g_tracer_obj_ptr = 0;
+  int c = spec_candidate();
+  __CPROVER_assume(c >= 0);                                   /* the no-match listing marks what it names: covered by world.text.no_match_listing */
+  unsigned ccost = spec_cost(c);
+  _Bool forbidden = in_max[c] == 0;
+  __CPROVER_assume(forbidden || ccost == ~0U);                /* rejected: forbidding candidate, or candidate not permitted by its sequences */
+  (void)MOCK_FUNC(exps, "f", "int(int)", &x);
+  __CPROVER_assert(vp_exc == VP_EXC_VIOLATION && vp_rep_n == 1, "[C01] POST call_then_dtor.the_call_is_rejected_with_one_report");
+  vp_exc = 0;                                                  /* the test catches the reporter's exception and goes on */
+  const int t = W_T;
+  _Bool named = in_reported[t] || (forbidden && t == c);       /* a forbidden-call report names the forbidding expectation */
+  _Bool unfulfilled = !named && in_where[t] != 2 && in_cnt[t] < in_min[t];
+  CM_DTOR(cm[t]);
+  __CPROVER_assert(vp_rep_n == 1 + (unfulfilled ? 1 : 0), "[C04] POST call_then_dtor.a_rejected_call_is_not_counted_towards_the_lower_bound");
+  if (vp_rep_n >= 2) __CPROVER_assert(vp_rep[1].sev == 1 && vp_rep[1].file == nm_file[t] && vp_rep[1].line == 100 + t, "[C04,C15] POST call_then_dtor.report_is_nonfatal_with_the_expectation_location");
+  __CPROVER_assert(vp_exc == 0 && !vp_terminated, "[C15] POST call_then_dtor.does_not_throw");
+  __CPROVER_assert(!in_ring_cm(SENT_ACTIVE, t) && !in_ring_cm(SENT_SAT, t), "[C04,C14] POST call_then_dtor.expectation_left_its_list");
+  __CPROVER_assert(ring_ok_cm(SENT_ACTIVE) && ring_ok_cm(SENT_SAT) && ring_ok_seq(0) && ring_ok_seq(1), "[C14] POST call_then_dtor.rings_well_formed");
+  __CPROVER_assert(!(unfulfilled && t == c && !forbidden), "REACH call_then_dtor.out_of_sequence_candidate_unfulfilled");
+  __CPROVER_assert(!(forbidden && t == c), "REACH call_then_dtor.forbidding_candidate_released");
+  __CPROVER_assert(0, "REACH! call_then_dtor.end");
+}
+
 /* ================================================================== the mock object dies first (C04, C14, C15) */
 void w_mockdtor(void)
 {
